@@ -5,6 +5,13 @@
 #pragma once
 
 #include "tokens.hpp"
+#include "emitted.hpp"
+
+#include <alloca.h>
+#include <yorel/yomm2/decode.hpp>
+#ifndef YS_NO_GLUE
+#include "glue.hpp"
+#endif
 
 #include <cstring>
 #include <new>
@@ -478,6 +485,8 @@ struct SlotVT {
     std::uintptr_t (*body_pf)(int body);
     void** (*next_cell)(int body);
     void (*call)(const CallArg* args, bool resolve_only, CallOut& out);
+    std::size_t* (*st_slots)();   // static_offsets<M>::slots, or null
+    std::size_t* (*st_strides)(); // static_offsets<M>::strides, or null
 };
 
 template<class P, int Slot, class Sig, class BodySeq>
@@ -542,10 +551,23 @@ struct SlotOps<P, Slot, int(A...), std::index_sequence<D...>> {
             args, resolve_only, out, std::make_index_sequence<sizeof...(A)>());
     }
 
+    static std::size_t* st_slots() {
+        if constexpr (y2::detail::has_static_offsets<M>::value)
+            return y2::detail::static_offsets<M>::slots;
+        else
+            return nullptr;
+    }
+    static std::size_t* st_strides() {
+        if constexpr (y2::detail::has_static_offsets<M>::value)
+            return y2::detail::static_offsets<M>::strides;
+        else
+            return nullptr;
+    }
+
     static constexpr SlotVT vt = {
         kinds,        (int)M::arity, (int)sizeof...(A), &load,
         &unload,      &method_info,  &slots_strides,    &body_pf,
-        &next_cell,   &call};
+        &next_cell,   &call,         &st_slots,         &st_strides};
 };
 
 template<class P, class Seq>
@@ -678,6 +700,7 @@ struct WorldT : PolicyOps {
         caps.compat = kCompat;
         caps.trace = kTrace;
         caps.small_ids = !kHash && !kMap;
+        caps.static_offsets = Slots::vt[0]->st_slots() != nullptr;
         all_policies().push_back(this);
     }
 
@@ -737,6 +760,99 @@ struct WorldT : PolicyOps {
             P::trace_enabled = false;
         }
         set_handler(HM_DEFAULT);
+        std::free(decoded_block);
+        decoded_block = nullptr;
+        decoded_size = 0;
+        for (int sl = 0; sl < NSLOTS; ++sl)
+            if (auto a = Slots::vt[sl]->st_slots()) {
+                std::memset(a, 0, 8 * sizeof(std::size_t));
+                std::memset(Slots::vt[sl]->st_strides(), 0,
+                            8 * sizeof(std::size_t));
+            }
+    }
+
+    // ---- C12: the static-offset generator and its "compiled" output
+
+    std::string gen_offsets(int slot) override {
+#ifndef YS_NO_GLUE
+        if constexpr (kStd) {
+            return glue_offsets<P>(slot);
+        }
+#endif
+        (void)slot;
+        return "";
+    }
+
+    void set_offsets(
+        int slot, const std::vector<std::size_t>& slots,
+        const std::vector<std::size_t>& strides) override {
+        auto a = Slots::vt[slot]->st_slots();
+        auto b = Slots::vt[slot]->st_strides();
+        if (!a)
+            return;
+        for (std::size_t i = 0; i < 8; ++i) {
+            a[i] = i < slots.size() ? slots[i] : 0;
+            b[i] = i < strides.size() ? strides[i] : 0;
+        }
+    }
+
+    // ---- C13: decode_dispatch_data on the emitted text
+
+    // the emitted object, laid out as the emitted struct declaration says, in
+    // one heap block of exactly its size (AddressSanitizer guards both ends)
+    static inline unsigned char* decoded_block = nullptr;
+    static inline std::size_t decoded_size = 0;
+
+    struct DecodeData {
+        struct {
+            std::uint16_t* slots;
+            std::uint16_t* vtbls;
+        } encoded;
+        std::uintptr_t* vtbls;
+        std::uintptr_t* dtbls;
+    };
+
+    DecodeOut decode(const std::string& text, const Event& ev) override {
+        DecodeOut out;
+        EmittedData em;
+        out.parse_why = parse_emitted(text, em);
+        if (!out.parse_why.empty())
+            return out;
+        out.parsed = true;
+        out.headroom = em.headroom;
+        out.nslots = em.nslots;
+        out.nvtbls = em.nvtbls;
+        out.ndecoded = em.ndecoded;
+        out.ndtbls = em.ndtbls;
+        const std::size_t enc_bytes =
+            2 * (em.headroom + em.nslots + em.nvtbls);
+        std::size_t usize = std::max(enc_bytes, 8 * em.ndecoded);
+        usize = (usize + 7) / 8 * 8;
+        std::free(decoded_block);
+        decoded_size = usize + 8 * em.ndtbls;
+        decoded_block = (unsigned char*)std::calloc(
+            1, decoded_size ? decoded_size : 1);
+        DecodeData d;
+        auto enc = reinterpret_cast<std::uint16_t*>(decoded_block);
+        d.encoded.slots = enc + em.headroom;
+        d.encoded.vtbls = enc + em.headroom + em.nslots;
+        d.vtbls = reinterpret_cast<std::uintptr_t*>(decoded_block);
+        d.dtbls = reinterpret_cast<std::uintptr_t*>(decoded_block + usize);
+        for (std::size_t i = 0; i < em.slots.size(); ++i)
+            d.encoded.slots[i] = em.slots[i];
+        for (std::size_t i = 0; i < em.vtbls.size(); ++i)
+            d.encoded.vtbls[i] = em.vtbls[i];
+        for (std::size_t i = 0; i < em.dtbls.size(); ++i)
+            d.dtbls[i] = em.dtbls[i];
+        g.hash_seed = ev.hash_seed;
+        g.hash_budget = ev.hash_budget;
+        guarded(out.err, [&] {
+            y2::decode_dispatch_data<P>(d);
+            out.completed = true;
+        });
+        g.hash_seed = 0;
+        g.hash_budget = 0;
+        return out;
     }
 
     std::string pristine() override {
@@ -945,8 +1061,22 @@ struct WorldT : PolicyOps {
             for (auto& m : compiler.methods)
                 if (m.arity() > 1)
                     out.multi_cells += m.dispatch_table.size();
+#ifndef YS_NO_GLUE
+            if constexpr (kStd) {
+                if (ev.encode) {
+                    g.alloc_armed = false;
+                    out.encoded = glue_encode<P>(compiler, name.c_str());
+                }
+            }
+#endif
             out.completed = true;
         });
+        if (out.completed && decoded_block) {
+            // update moved every v-table pointer to dispatch_data
+            std::free(decoded_block);
+            decoded_block = nullptr;
+            decoded_size = 0;
+        }
         if (!out.completed)
             out.allocs = g.alloc_count;
         g.hash_seed = 0;
@@ -1116,6 +1246,11 @@ struct WorldT : PolicyOps {
         s.dd_begin = (std::uintptr_t)P::dispatch_data.data();
         s.dd_end = (std::uintptr_t)(P::dispatch_data.data() +
                                     P::dispatch_data.size());
+        if (decoded_block) {
+            // after decode_dispatch_data the tables live in the emitted object
+            s.dd_begin = (std::uintptr_t)decoded_block;
+            s.dd_end = s.dd_begin + decoded_size;
+        }
         for (int c = 0; c < MAXC; ++c)
             s.static_vptr[c] = (std::uintptr_t)*Makers<P>::svp[c];
         for (int c = 0; c < MAXC; ++c)
@@ -1153,6 +1288,12 @@ struct WorldT : PolicyOps {
         auto m = static_cast<y2::detail::method_info*>(vt->method_info());
         out.pf_not_implemented = (std::uintptr_t)m->not_implemented;
         out.pf_ambiguous = (std::uintptr_t)m->ambiguous;
+        out.has_static = vt->st_slots() != nullptr;
+        if (out.has_static)
+            for (int i = 0; i < 8; ++i) {
+                out.st_slots[i] = vt->st_slots()[i];
+                out.st_strides[i] = vt->st_strides()[i];
+            }
         return meth_live[slot];
     }
 
